@@ -36,7 +36,7 @@ def run(ctx):
     okl, _w = must_pass(orw, [0], lost) if lost else (False, None)
     ctx.ob('R07.1', 'on_remove_worker|announces the loss', okl, 'on_remove_worker announces the loss (on_worker_lost) on every path', orw.loc())
     tf = orw.call_blocks(REACTOR + 'task_failed')
-    ctx.floor('R07.1', len(tf), 2, 'task_failed calls in on_remove_worker')
+    ctx.floor('R07.1', len(tf), 1, 'task_failed calls in on_remove_worker')
     for b in tf:
         ok = b not in orw.reach_from([0], avoid=lost)
         ctx.ob('R07.1', 'on_remove_worker|on_worker_lost before task_failed', ok, 'the loss announcement dominates the penalty', orw.loc(b))
@@ -109,7 +109,7 @@ def run(ctx):
     ctx.require(rl, 'R07.4: running list local not found')
     pushes = [bi for bi, t, c in orw.calls() if c == 'alloc::vec::Vec::push' and bi in orw.reachable()
               and set(rl) & orw.derived_from(op_local(t['args'][0]))]
-    ctx.floor('R07.4', len(pushes), 2, 'pushes into the running list')
+    ctx.floor('R07.4', len(pushes), 1, 'pushes into the running list')
     # announced states: variants V such that every write of V (outside tests) is followed by on_task_started
     announced = set()
     for v in prog.variants(TRS):
